@@ -1,6 +1,71 @@
-import DdsModel.Drv.Util
+import DdsModel.Encoder
+import DdsModel.EncLen
+import DdsModel.Drv.C02
+import DdsModel.Drv.C11
 namespace Dds.Drv
+open Dds
 
-def runC10 (_line : String) : String := "not-modelled"
+/-- `get_maximum_mipmap_count`: bit length of the largest dimension (at least 1) -/
+def maxMipCount (n : Nat) : Nat := if n = 0 then 1 else Nat.log2 n + 1
+
+/-- write whatever surface the encoder reports as next until it is done or a call fails -/
+def writeAll (e : Enc) : Nat → List Nat → Enc × String × List Nat
+  | 0, acc => (e, "ok", acc.reverse)
+  | fuel + 1, acc =>
+    match e.iter.currentP with
+    | none => (e, "panic", acc.reverse)
+    | some none => (e, "ok", acc.reverse)
+    | some (some s) =>
+      let (e', r) := e.write s.w s.h false
+      match r with
+      | .ok => writeAll e' fuel (e'.written :: acc)
+      | r => (e', s!"err {encResName r}", (e'.written :: acc).reverse)
+
+/-- the model of the writer loop of the family of `px`; the sum of the write sizes -/
+def singleLen (px : PixelInfo) (w h pitchExtra mw mh : Nat) : String :=
+  if w % mw ≠ 0 ∨ h % mh ≠ 0 then "InvalidSize" else
+  match px with
+  | .fixed bpp =>
+    toString (if pitchExtra = 0 then (chunksContig (w * h) 512 bpp).sum else (chunksRows w h 512 bpp).sum)
+  | .block bytes bw bh =>
+    if bh = 1 then toString (chunksSubsample w h (512 / bw * bw) bw bytes).sum
+    else toString (writesBlock w h bw bh bytes).sum
+  | .biPlanar p1 p2 _ _ => toString (writesBiPlanar w h p1 p2).sum
+
+/-- `X <format> <px> <mulW> <mulH> <kind> <w> <h> <mipmode> <color> <pitchExtra> <quality> <dither> <parallel>` -/
+def runC10 (line : String) : String :=
+  match toks line with
+  | ["X", _fmt, px, mw, mh, kind, w, h, mipmode, _color, pitchExtra, _q, _d, _p] =>
+    match parsePx px, nat? mw, nat? mh, nat? w, nat? h, nat? pitchExtra with
+    | some px, some mw, some mh, some w, some h, some pitchExtra =>
+      let kindc := kind.toList
+      let arg : Option Nat := (String.ofList kindc.tail).toNat?
+      let depth : Option Nat := if kindc.head? = some 'v' then arg else none
+      let hk : Option HeaderKind :=
+        match kindc.head? with
+        | some 't' => some (.dx10 false .tex2D 1)
+        | some 'c' => some (.dx10 true .tex2D 1)
+        | some 'v' => some (.dx10 false .tex3D 1)
+        | some 'a' => arg.map fun n => .dx10 false .tex2D n
+        | _ => none
+      match hk with
+      | none => "bad-case"
+      | some hk =>
+        let biggest := max (max w h) (depth.getD 1)
+        let mips := if mipmode == "n" then 1 else maxMipCount biggest
+        let hd : LayoutHeader := { width := w, height := h, depth, mipmapCount := mips, kind := hk }
+        match layoutOf hd px with
+        | none => "panic"
+        | some (.error e) => s!"err Layout{errName e}"
+        | some (.ok L) =>
+          let e0 := { Enc.new L mw mh with generate := mipmode == "g" }
+          let (e, res, lens) := writeAll e0 6000 []
+          let main : Nat × Nat := match L with
+            | .texture t => (t.w, t.h)
+            | .volume v => (v.w, v.h)
+            | .textureArray a => (a.w, a.h)
+          s!"{res} calls={lens.length} lens={",".intercalate (lens.map toString)} total={e.written} single={singleLen px main.1 main.2 pitchExtra mw mh}"
+    | _, _, _, _, _, _ => "bad-case"
+  | _ => "bad-case"
 
 end Dds.Drv
